@@ -24,6 +24,12 @@ RULE = (
     "object) and with two distribution objects over one parameter tensor; one distribution object (and one "
     "control-variate-mean tensor) used by 2 estimator calls in a row (direct->is, is->direct, same estimator "
     "called twice), gradients taken after the last call; parameter tensor shared by proposal and function. "
+    "Don't-care / boundary parameterisations: categorical proposals (OneHotCategorical, Categorical, "
+    "GumbelOneHotCategorical) built with logits= and one or several classes at exactly -inf, and with probs= and "
+    "exact zeros - in every estimator tree (direct, importance sampling incl. shared objects, enumeration, call "
+    "sequences), in the relaxation estimators (region-mapped grids, RELAX value + finite gradient, "
+    "straight-through value) and in the relaxed-distribution grid (threshold probabilities over the one-hot "
+    "support sum to one and equal softmax, masked classes have probability 0, factorisation, supports). "
     "Functions / control variates that hand back the sample itself or a view of it (identity, no-op .to(), "
     "slice, squeeze) x control variate (none, table, linear, view) x is_log x validate_args on/off. Every "
     "func/cv callback is wrapped: tensors handed to it and produced by it must be bit-identical after the "
@@ -50,6 +56,14 @@ ASSUMPTIONS = [
     "importance sampling: self_normalize=False (the self-normalised estimate is documented as biased)",
     "an estimator owns neither the sample it hands to func/cv nor the tensors they return: writing into them is "
     "reported (symptom callback-tensor-modified) even where value and gradient happen to stay exact",
+    "masked classes: a -inf logit has no parameter influence (exact gradient 0, compared); a probability that is "
+    "exactly 0 under probs= is a boundary coordinate no score-function estimator can see - only the live "
+    "coordinates of the gradient are compared there; conditioning a relaxed sample on a masked class "
+    "(probability zero) is not constrained; a masked class' coordinate of rsample may be -inf but never nan, and "
+    "log_prob / clog_prob of the distribution's own rsample must be finite; the parameter-dependent function "
+    "variant is not combined with masked classes (sum(theta) would be -inf)",
+    "Bernoulli-type logits at +-inf are NOT enumerated: torch.distributions.Bernoulli(logits=inf).log_prob(1.) is "
+    "itself nan (binary_cross_entropy_with_logits), so no reference behaviour exists; probs= 0 and 1 are covered",
     "view-returning functions are exercised on float samples only (Bernoulli, OneHotCategorical, SRSWOR); a "
     "Categorical sample is an integer tensor and cannot be the function value",
     "relaxation estimators: value only; midpoint product grids need the Bernoulli probability on a cell edge; the "
@@ -88,6 +102,14 @@ def _proposals(tier, seed):
                 for kind in ("onehot", "cat"):
                     rng = T.rng_for(seed, kind, par, V, r)
                     out.append({"kind": kind, "par": par, "theta": _theta(rng, par, V, cat=True)})
+    # don't-care / boundary classes: logit exactly -inf (logits=) or probability exactly 0 (probs=)
+    for kind in ("onehot", "cat"):
+        for par in ("logits", "probs"):
+            for V, masked in ((3, [1]), (3, [0, 2]), (2, [0])):
+                if tier == "quick" and (V, masked) == (2, [0]) and par == "probs":
+                    continue
+                rng = T.rng_for(seed, "masked", kind, par, V, masked)
+                out.append({"kind": kind, "par": par, "theta": _theta(rng, par, V, cat=True), "masked": masked})
     rng = T.rng_for(seed, "const")
     out.append({"kind": "bern_joint", "par": "logits", "theta": _theta(rng, "logits", 3), "const": {"1": 0.0}})
     out.append({"kind": "bern_joint", "par": "probs", "theta": _theta(rng, "probs", 2), "const": {"0": 1.0}})
@@ -149,7 +171,7 @@ def configs(tier, seed):
                 for N in Ns:
                     if S ** N > 600:
                         continue
-                    fdep = dict(fs[0], dep=0.1) if ps["kind"] != "srswor" else None
+                    fdep = dict(fs[0], dep=0.1) if ps["kind"] != "srswor" and not ps.get("masked") else None
                     for f in fs + ([fdep] if fdep else []):
                         for cv in (cvs if f is not fdep else cvs[:2]):
                             out.append((S ** N, {"fam": "tree", "est": "direct", "prop": ps, "f": f, "cv": cv, "N": N,
@@ -168,7 +190,7 @@ def configs(tier, seed):
                             out.append((S ** N, {"fam": "tree", "est": "is", "prop": ps, "dens": dens, "f": f, "N": N,
                                                  "is_log": is_log, "dtype": dtype}))
                 if ps["kind"] != "bern_joint":
-                    for f in fs + ([dict(fs[0], dep=0.1)] if ps["kind"] != "srswor" else []):
+                    for f in fs + ([dict(fs[0], dep=0.1)] if ps["kind"] != "srswor" and not ps.get("masked") else []):
                         out.append((1, {"fam": "tree", "est": "enum", "prop": ps, "f": f, "is_log": is_log,
                                         "dtype": dtype}))
     # ---- configurations in which arguments share objects ------------------------------------------
@@ -184,7 +206,7 @@ def configs(tier, seed):
             rng = T.rng_for(seed, "fn", pi, is_log)
             fs = _fspecs(ps, rng, is_log, "f")
             cvs = _fspecs(ps, rng, is_log, "cv")
-            flist = [fs[0]] + ([dict(fs[0], dep=0.1)] if ps["kind"] != "srswor" else [fs[1]])
+            flist = [fs[0]] + ([dict(fs[0], dep=0.1)] if ps["kind"] != "srswor" and not ps.get("masked") else [fs[1]])
             for N in Ns:
                 if S ** N > (70 if tier == "quick" else 600):
                     continue
@@ -200,7 +222,7 @@ def configs(tier, seed):
     view_props = []
     for ps in props:
         k, n = ps["kind"], len(ps.get("theta", []))
-        if ps.get("const"):
+        if ps.get("const") or ps.get("masked"):
             continue
         if k == "bern_elem":
             view_props.append((ps, ("identity", "to")))
@@ -234,7 +256,7 @@ def configs(tier, seed):
     # ---- Metropolis-Hastings -----------------------------------------------------------------
     imh_props = [(p, "quick" if tier == "quick" else "full") for p in props
                  if (p["kind"], len(p.get("theta", []))) in (("bern_joint", 1), ("bern_joint", 2), ("cat", 3), ("onehot", 2))
-                 and not p.get("const")][: 8 if tier == "quick" else 16]
+                 and not p.get("const") and not p.get("masked")][: 8 if tier == "quick" else 16]
     imh_props += [(p, "ends") for p in props if p["kind"] == "bern_elem" and not p.get("const")][:2]
     imh_props += [(p, "quick") for p in props if p["kind"] == "srswor" and (p["T"], p["L"]) == (3, 1)]
     for pi, (ps, menu) in enumerate(imh_props):
@@ -313,6 +335,32 @@ def configs(tier, seed):
                                                       "dtype": dtype}))
                         out.append((2 + G ** N / 1000, {"fam": "relax_region", "est": "st", "dist": "gumbel", "p": pv, "par": par,
                                                   "K": K, "N": N, "is_log": is_log, "f": f, "dtype": dtype}))
+    # relaxation estimators over proposals with don't-care classes (logit -inf / probability 0)
+    rng = T.rng_for(seed, "relax-masked")
+    for is_log in (False, True):
+        tv = (lambda: T.r3(rng, 1.0, 3.0)) if is_log else (lambda: T.r3(rng, -2.0, 3.0))
+        for par in ("logits", "probs"):
+            for pv in ([0.0, T.r3(rng, 0.2, 0.8)], [T.r3(rng, 0.2, 0.8), 0.0, T.r3(rng, 0.2, 0.8)], [0.0, 0.0, 1.0]):
+                V = len(pv)
+                tot = sum(pv)
+                pv = [x / tot for x in pv]
+                K = 6 if V == 2 else 4
+                f = [tv() for _ in range(V)]
+                for N in (1, 2):
+                    G = sum(1 for x in pv if x > 0) * K ** V
+                    if is_log:
+                        cvs = ({"kind": "rebar", "lam": T.r3(rng, 0.3, 1.0), "eta": 0.3},
+                               {"kind": "tanh", "a": [T.r3(rng, 0.02, 0.1) for _ in range(V)], "d": 0.5})
+                    else:
+                        cvs = ({"kind": "rebar", "lam": T.r3(rng, 0.3, 1.0), "eta": T.r3(rng, 0.3, 1.2)},
+                               {"kind": "tanh", "a": [T.r3(rng, -2, 2) for _ in range(V)], "d": T.r3(rng, -1, 1)})
+                    for dtype in ("float32", "float64"):
+                        for cv in cvs:
+                            out.append((2 + G ** N / 500, {"fam": "relax_region", "est": "relax", "dist": "gumbel", "p": pv,
+                                                           "par": par, "K": K, "N": N, "is_log": is_log, "f": f, "cv": cv,
+                                                           "dtype": dtype}))
+                        out.append((2 + G ** N / 1000, {"fam": "relax_region", "est": "st", "dist": "gumbel", "p": pv,
+                                                        "par": par, "K": K, "N": N, "is_log": is_log, "f": f, "dtype": dtype}))
     # ---- relaxed distributions on a parameter x noise grid -------------------------------------
     rng = T.rng_for(seed, "relaxdist")
     K = 8 if tier == "quick" else 32
@@ -329,6 +377,15 @@ def configs(tier, seed):
             lg = [[0.0] * V, [3.0] + [-3.0] * (V - 1)] + [[T.r3(rng, -2, 2) for _ in range(V)] for _ in range(3)]
             out.append((30, {"fam": "relaxdist", "dist": "gumbel_one_hot", "par": "probs", "params": pr, "K": Kc, "dtype": dtype}))
             out.append((30, {"fam": "relaxdist", "dist": "gumbel_one_hot", "par": "logits", "params": lg, "K": Kc, "dtype": dtype}))
+            # masked classes: logit exactly -inf (None), one or several; probs= with several exact zeros
+            mk = [[T.r3(rng, -2, 2) if (i + r) % V else None for i in range(V)] for r in range(V)]
+            if V == 3:
+                mk += [[None, T.r3(rng, -2, 2), None], [None, None, 0.0]]
+            out.append((30, {"fam": "relaxdist", "dist": "gumbel_one_hot", "par": "logits", "params": mk, "K": Kc,
+                             "dtype": dtype, "masked": True}))
+            if V == 3:
+                out.append((20, {"fam": "relaxdist", "dist": "gumbel_one_hot", "par": "probs",
+                                 "params": [[0.0, 1.0, 0.0], [0.0, 0.0, 1.0], [0.3, 0.0, 0.7]], "K": Kc, "dtype": dtype}))
     # ---- fixed-cardinality sampling, supports, binomials -----------------------------------------
     Tmax = 5 if tier == "quick" else 6
     for t in range(Tmax + 1):
